@@ -15,7 +15,7 @@ using bspline::exceptions::BSplineException;
 #ifndef SEQLEN
 #define SEQLEN 2
 #endif
-static const int NOPS = 18;
+static const int NOPS = 22;
 
 template <size_t o>
 void valid(const std::string &key, const Spline<Real, o> &s, const std::vector<Real> &pts, bool must_be_interval_free = false) {
@@ -69,6 +69,11 @@ static int apply(Pool &P, int op, const Real &k, const Real &k2, const Grid<Real
     case 15: a = bspline::linearCombination(std::vector<Real>{k, k2}, std::vector<Spline<Real, 1>>{a, b}); return 0;
     case 16: std::swap(a, b); return 0;
     case 17: m = (X<1>{} * Dx<1>{} - k) * b; return 0;
+    // expiring operands (xvalues): whatever overload is chosen, the source stays a valid object
+    case 18: m = std::move(a) * k; return 0;
+    case 19: m = std::move(a) + b; return 0;
+    case 20: m = -std::move(b); return 0;
+    case 21: m = Dx<1>{} * (std::move(a) * std::move(b)); { auto sup = std::move(a).getSupport(); (void)sup; } return 0;
   }
   return 0;
 }
